@@ -189,6 +189,7 @@ class Env:
         if k == "PBind" and not pat.get("sub"):
             if "Mut" in pat.get("mode", "") and "Not)" not in pat.get("mode", ""):
                 self.mutable.add(pat["id"])
+                return      # `let mut x`: never substituted (its value may change, also through &mut self calls)
             if not refutable:
                 self.defs[pat["id"]] = init
         elif k == "PTuple":
